@@ -23,11 +23,16 @@ package main
 
 import (
 	"bufio"
+	"context"
 	"flag"
 	"fmt"
 	"os"
 	"sort"
 	"strings"
+
+	"google.golang.org/grpc/status"
+	"massnet.org/mass-wallet/api"
+	pb "massnet.org/mass-wallet/api/proto"
 
 	"github.com/massnetorg/mass-core/blockchain"
 	"github.com/massnetorg/mass-core/massutil"
@@ -68,12 +73,62 @@ func errClass(err error) string {
 	case masswallet.ErrInvalidParameter, masswallet.ErrInvalidAmount, masswallet.ErrFailedDecodeAddress,
 		masswallet.ErrInvalidAddress, masswallet.ErrInvalidStakingAddress, masswallet.ErrNet,
 		masswallet.ErrCreatePkScript, masswallet.ErrShaHashFromStr, masswallet.ErrNoAddressInWallet,
-		masswallet.ErrUnknownSubfeefrom, keystore.ErrAddressNotFound, txscript.ErrFrozenPeriod:
+		masswallet.ErrUnknownSubfeefrom, masswallet.ErrInvalidIndex, keystore.ErrAddressNotFound, txscript.ErrFrozenPeriod:
 		return "invalid"
 	case masswallet.ErrDustChange, masswallet.ErrDustAmount:
 		return "dust"
 	}
 	return "other"
+}
+
+// apiErrClass maps the status code of an API error to the same classes.
+func apiErrClass(err error) string {
+	st, ok := status.FromError(err)
+	if !ok {
+		return "other"
+	}
+	switch uint32(st.Code()) {
+	case api.ErrAPIInsufficientWalletBalance, api.ErrAPINotEnoughInputs:
+		return "insufficient"
+	case api.ErrAPIOverfullInputs:
+		return "overfull"
+	case api.ErrAPIInvalidParameter, api.ErrAPIInvalidLockTime, api.ErrAPIInvalidAmount, api.ErrAPIInvalidAddress,
+		api.ErrAPIInvalidTxId, api.ErrAPIUnknownSubfeefrom, api.ErrAPINoAddressInWallet, api.ErrAPIUserTxFee:
+		return "invalid"
+	case api.ErrAPIDustChange, api.ErrAPIDustAmount:
+		return "dust"
+	}
+	return "other"
+}
+
+func amtStr(v int64) string {
+	s, err := api.AmountToString(v)
+	if err != nil {
+		panic(fmt.Sprintf("harness: AmountToString(%d): %v", v, err))
+	}
+	return s
+}
+
+// feeOf computes inputs - outputs of a decoded transaction from the chain's values (the API
+// wrappers do not report the fee).
+func (s *scn) feeOf(hexTx string) massutil.Amount {
+	tx, err := hist.DecodeTxHex(hexTx)
+	if err != nil {
+		return massutil.ZeroAmount()
+	}
+	var f int64
+	for _, in := range tx.TxIn {
+		if oi := s.ops[in.PreviousOutPoint]; oi != nil {
+			f += oi.val
+		}
+	}
+	for _, o := range tx.TxOut {
+		f -= o.Value
+	}
+	if f < 0 {
+		f = 0
+	}
+	return amt(f)
 }
 
 // ---------------------------------------------------------------------------- pure cases
@@ -382,6 +437,7 @@ type scn struct {
 	reserved []int
 	faucet  []wire.OutPoint
 	strangerAddr []string
+	srv     *api.APIServer
 }
 
 func (s *scn) note(tx *wire.MsgTx, height uint64, mined bool) {
@@ -598,7 +654,7 @@ func (s *scn) build(profile int) error {
 			}
 			if rel {
 				s.pending = append(s.pending, tx)
-				s.note(tx, 0, false)
+				s.note(tx, s.h.N.Height()+1, false)
 				stats["pending_txs"]++
 			}
 		}
@@ -697,11 +753,14 @@ func ints(l []int) string {
 }
 
 // implObs projects the result of a create call.
-func (s *scn) implObs(hexTx string, fee massutil.Amount, err error, panicked bool) (string, *wire.MsgTx) {
+func (s *scn) implObs(hexTx string, fee massutil.Amount, err error, panicked bool, viaAPI bool) (string, *wire.MsgTx) {
 	if panicked {
 		return "panic", nil
 	}
 	if err != nil {
+		if viaAPI {
+			return "err|" + apiErrClass(err), nil
+		}
 		return "err|" + errClass(err), nil
 	}
 	tx, derr := hist.DecodeTxHex(hexTx)
@@ -781,6 +840,16 @@ func (s *scn) pickTotal(total int64, vals []int64, fee int64) int64 {
 		f = 10000
 	}
 	var t int64
+	if r.Chance(45) && total > 0 { // comfortable: a fraction of what is there
+		t = 1 + int64(r.U64()%uint64(total*6/10+1))
+		if r.Chance(30) && len(vals) > 0 { // about one coin
+			t = vals[r.Intn(len(vals))] - int64(r.Intn(3))*int64(r.Intn(15000))
+		}
+		if t <= 0 {
+			t = 1 + int64(r.Intn(20000))
+		}
+		return t
+	}
 	switch r.Intn(12) {
 	case 0:
 		t = total - f
@@ -925,6 +994,7 @@ func (s *scn) autoStep(forced *forcedAuto) error {
 		nrec = len(amounts)
 	}
 	outsOK := 1
+	viaAPI := false
 	var outDesc []string
 	var hexTx string
 	var gotFee massutil.Amount
@@ -973,7 +1043,23 @@ func (s *scn) autoStep(forced *forcedAuto) error {
 			}
 			outDesc = append(outDesc, fmt.Sprintf("0:%d:0:%d", sh, amounts[i]))
 		}
-		call(func() { hexTx, gotFee, cerr = s.h.W.WM.AutoCreateRawTransaction(m, lock, amt(fee), from, change, pl) })
+		if forced == nil && payload == 0 && changeOK == 1 && lock < 1<<62 && r.Chance(30) {
+			viaAPI = true
+			req := &pb.AutoCreateTransactionRequest{Amounts: map[string]string{}, LockTime: lock, Fee: amtStr(fee), FromAddress: from, ChangeAddress: change}
+			for a, v := range m {
+				req.Amounts[a] = amtStr(v.IntValue())
+			}
+			call(func() {
+				var resp *pb.CreateRawTransactionResponse
+				resp, cerr = s.srv.AutoCreateTransaction(context.Background(), req)
+				if cerr == nil {
+					hexTx = resp.Hex
+					gotFee = s.feeOf(hexTx)
+				}
+			})
+		} else {
+			call(func() { hexTx, gotFee, cerr = s.h.W.WM.AutoCreateRawTransaction(m, lock, amt(fee), from, change, pl) })
+		}
 	case 1:
 		a := s.ownAddr()
 		saddr, err := massutil.NewAddressStakingScriptHash(a.ShBytes, config.ChainParams)
@@ -1006,12 +1092,16 @@ func (s *scn) autoStep(forced *forcedAuto) error {
 		}
 		call(func() { hexTx, gotFee, cerr = s.h.W.WM.CreateBindingTransaction(from, amt(fee), o) })
 	}
-	obs, tx := s.implObs(hexTx, gotFee, cerr, panicked)
+	obs, tx := s.implObs(hexTx, gotFee, cerr, panicked, viaAPI)
 	od := "-"
 	if len(outDesc) > 0 {
 		od = strings.Join(outDesc, ";")
 	}
 	s.step++
+	if viaAPI {
+		stats["A_api"]++
+		kind = 9
+	}
 	fmt.Fprintf(s.out, "A\t%d.%d.k%d\t%s\t%s\t%s\t%s|%d|%d|%d|%s|%s|%d|%d\t%s\n", s.n, s.step, kind,
 		rowsString(rows), s.addrsString(), ints(s.reserved), od, outsOK, fee, lock, fromSh, changeSh, changeOK, payload, obs)
 	stats["A"]++
@@ -1081,6 +1171,8 @@ func (s *scn) manualStep(forced *forcedManual) error {
 		totalIn += oi.val
 	}
 	nin := 1 + r.Intn(4)
+	clean := r.Chance(62)
+	viaAPI := forced == nil && r.Chance(30)
 	if forced != nil {
 		for _, oi := range forced.ins {
 			addOut(oi)
@@ -1089,6 +1181,19 @@ func (s *scn) manualStep(forced *forcedManual) error {
 	}
 	for i := 0; i < nin; i++ {
 		k := r.Intn(100)
+		if clean && len(ownStd) > 0 { // distinct spendable coins of the wallet
+			oi := ownStd[r.Intn(len(ownStd))]
+			dup := false
+			for _, in := range ins {
+				if in.TxId == oi.op.Hash.String() && in.Vout == oi.op.Index {
+					dup = true
+				}
+			}
+			if !dup {
+				addOut(oi)
+			}
+			continue
+		}
 		switch {
 		case k < 62 && len(ownStd) > 0:
 			addOut(ownStd[r.Intn(len(ownStd))]) // may repeat an earlier one (duplicate)
@@ -1121,6 +1226,8 @@ func (s *scn) manualStep(forced *forcedManual) error {
 				op := wire.OutPoint{Hash: th, Index: uint32(vi)}
 				if oi := s.ops[op]; oi != nil {
 					addOut(oi)
+				} else if vi >= len(tx.TxOut) && viaAPI {
+					// the API reports ErrInvalidIndex as "abnormal data": not used through the API
 				} else if vi >= len(tx.TxOut) {
 					ins = append(ins, &masswallet.TxIn{TxId: th.String(), Vout: uint32(vi)})
 					desc = append(desc, "V")
@@ -1128,7 +1235,13 @@ func (s *scn) manualStep(forced *forcedManual) error {
 					o := tx.TxOut[vi]
 					c, sh, par := s.h.TxDest(o.PkScript)
 					ins = append(ins, &masswallet.TxIn{TxId: th.String(), Vout: uint32(vi)})
-					desc = append(desc, fmt.Sprintf("%d:%d:%d:%d:%d:0:0:1:0", 900000+vi, o.Value, sh, c, par))
+					pi := 0
+					for x, ptx := range s.pending {
+						if ptx == tx {
+							pi = x
+						}
+					}
+					desc = append(desc, fmt.Sprintf("%d:%d:%d:%d:%d:%d:0:1:0", 900000+100*pi+vi, o.Value, sh, c, par, s.h.N.Height()+1))
 				}
 			}
 		case k < 92: // stranger's coin: the wallet has no record
@@ -1149,7 +1262,10 @@ func (s *scn) manualStep(forced *forcedManual) error {
 			desc = append(desc, "U")
 		}
 	}
-	if len(ins) == 0 && forced == nil && r.Chance(80) && len(ownStd) > 0 {
+	if forced == nil && r.Chance(3) {
+		ins, desc, totalIn = nil, nil, 0
+	}
+	if len(ins) == 0 && forced == nil && r.Chance(70) && len(ownStd) > 0 {
 		addOut(ownStd[0])
 	}
 	nrec := []int{1, 1, 2, 2, 3}[r.Intn(5)]
@@ -1248,9 +1364,32 @@ func (s *scn) manualStep(forced *forcedManual) error {
 				panicked = true
 			}
 		}()
+		if viaAPI && lock < 1<<62 {
+			req := &pb.CreateRawTransactionRequest{Amounts: map[string]string{}, LockTime: lock, ChangeAddress: change}
+			for _, in := range ins {
+				req.Inputs = append(req.Inputs, &pb.TransactionInput{TxId: in.TxId, Vout: in.Vout})
+			}
+			for a, v := range m {
+				req.Amounts[a] = amtStr(v.IntValue())
+			}
+			for a := range sub {
+				req.Subtractfeefrom = append(req.Subtractfeefrom, a)
+			}
+			var resp *pb.CreateRawTransactionResponse
+			resp, cerr = s.srv.CreateRawTransaction(context.Background(), req)
+			if cerr == nil {
+				hexTx = resp.Hex
+				gotFee = s.feeOf(hexTx)
+			}
+			return
+		}
+		viaAPI = false
 		hexTx, gotFee, cerr = s.h.W.WM.CreateRawTransaction(ins, m, lock, change, sub)
 	}()
-	obs, tx := s.implObs(hexTx, gotFee, cerr, panicked)
+	obs, tx := s.implObs(hexTx, gotFee, cerr, panicked, viaAPI)
+	if viaAPI {
+		stats["M_api"]++
+	}
 	s.step++
 	ad := "-"
 	if len(adesc) > 0 {
@@ -1290,6 +1429,9 @@ func runScenario(seed uint64, n int, out *bufio.Writer) (err error) {
 		return s.corpus(n)
 	}
 	if err = s.build(profile); err != nil {
+		return err
+	}
+	if s.srv, err = api.NewAPIServer(nil, h.W.WM, func() {}, h.W.Cfg); err != nil {
 		return err
 	}
 	stats["scenarios"]++
